@@ -710,6 +710,39 @@ func altSetFamily() []Pat {
 	return finalize("ALTSET", trees, map[string]bool{}, false)
 }
 
+// ---- SETOVL: a class loop, then a NULLABLE class loop inside a capture, then a letter, then something that
+// depends on what the capture holds (a backreference). Whether the first loop may be made atomic depends on
+// whether the two classes overlap: when they do, giving back from the first loop changes the capture
+// (`[ab]*([bc]*)c\1$` on abcb needs [ab]* = a, group 1 = b). Plain matching cannot see the difference, which
+// is why the small-scope families never did ----
+
+func setOvlFamily() []Pat {
+	first := []*Node{set(false, 'a', 'b'), set(true, 'c'), lit('a'), lit('b'), anyc()}
+	second := []*Node{set(false, 'b', 'c'), set(true, 'a'), lit('b'), set(false, 'a', 'b'), lit('c')}
+	q1 := []quant{{0, -1, false}, {1, -1, false}, {0, 2, false}, {0, -1, true}}
+	q2 := []quant{{0, -1, false}, {0, 1, false}, {0, -1, true}, {0, 2, false}}
+	mids := []*Node{lit('c'), lit('a'), nil}
+	var trees []*Node
+	for _, x := range first {
+		for _, a := range q1 {
+			for _, y := range second {
+				for _, b := range q2 {
+					for _, m := range mids {
+						l1 := rep(x, a.min, a.max, a.lazy)
+						l2 := capg(rep(y, b.min, b.max, b.lazy))
+						ref := &Node{K: KRef, Cap: 1}
+						trees = append(trees,
+							cat(l1, l2, m, ref, asrt('$')),
+							cat(l1, l2, m, ref),
+							cat(l1, l2, m, ref, lit('a')))
+					}
+				}
+			}
+		}
+	}
+	return finalize("SETOVL", trees, map[string]bool{}, false)
+}
+
 // ---- LOOPALT: counted group loops (greedy and lazy, minimum >= 2 included) whose body is an alternation of
 // literals of different lengths: an iteration can be re-matched through another branch after a later one failed,
 // which is where the iteration counters have to be restored exactly ----
